@@ -3,6 +3,8 @@ package p10
 import (
 	"fmt"
 	"strings"
+
+	"github.com/go-task/task/v3/verifh/h"
 )
 
 // envCase is one point of the env lattice: which places define the
@@ -14,6 +16,13 @@ type envCase struct {
 	Proc       int  // process environment of the CLI: 0 not set, 1 set to a site-naming value, 2 set to the EMPTY string
 	Experiment bool // TASK_X_ENV_PRECEDENCE=1
 	Kind       kind // kLit or kSh for the env: entries
+	// VarSites: template-variable sites (task vars, call vars, root globals, CLI
+	// NAME=value) that define a VARIABLE of the same name, with site-naming
+	// values. vars: and env: are separate namespaces for what a command finds in
+	// its environment: "$NAME" follows the env order whatever the variables are.
+	// (Whether an env: entry is visible to templates, and where it would rank, is
+	// not documented: {{.NAME}} is not judged in these scenarios.)
+	VarSites []site
 }
 
 var envSiteNames = []string{"taskenv", "taskdot1", "taskdot2", "globalenv", "globaldot", "procenv"}
@@ -41,7 +50,14 @@ func (e envCase) key() string {
 	case 2:
 		s = append(s, "procenv=empty")
 	}
-	return fmt.Sprintf("experiment=%v|%s", e.Experiment, strings.Join(s, ","))
+	k := fmt.Sprintf("experiment=%v|%s", e.Experiment, strings.Join(s, ","))
+	if len(e.VarSites) > 0 {
+		k += "|vars="
+		for _, v := range e.VarSites {
+			k += siteName[v] + ","
+		}
+	}
+	return k
 }
 
 func (e envCase) count() int {
@@ -108,6 +124,34 @@ func envCases() []envCase {
 	return out
 }
 
+// envCollisions: the literal-kind env lattice (process env unset or set) x a
+// variable of the same name at {task vars}, {call vars}, {root globals}, {CLI},
+// {task vars, call vars, root globals}.
+func envCollisions() []envCase {
+	var out []envCase
+	sets := [][]site{{sTask}, {sCall}, {sGlobalTF}, {sCLI}, {sTask, sCall, sGlobalTF}}
+	for _, e := range envCases() {
+		if e.Kind != kLit || e.Proc == 2 || (e.Proc == 1 && !h.Thorough()) {
+			continue // quick tier: process env unset only (a set process variable is covered by the plain env lattice)
+		}
+		for _, vs := range sets {
+			c := e
+			c.VarSites = vs
+			out = append(out, c)
+		}
+	}
+	return out
+}
+
+func (e envCase) hasVar(s site) bool {
+	for _, v := range e.VarSites {
+		if v == s {
+			return true
+		}
+	}
+	return false
+}
+
 func envEntry(indent, name, site string, k kind) string {
 	if k == kSh {
 		return indent + name + ":\n" + indent + "  sh: " + yq("printf '%s' "+site+".sh") + "\n"
@@ -121,6 +165,9 @@ func (sc *scenario) buildEnv() {
 	n := sc.Name
 	files := map[string]string{}
 	root := "version: '3'\n"
+	if e.hasVar(sGlobalTF) {
+		root += "vars:\n  " + n + ": 'globaltf.lit'\n"
+	}
 	switch e.Global {
 	case 1:
 		root += "env:\n" + envEntry("  ", n, "globalenv", e.Kind)
@@ -129,7 +176,11 @@ func (sc *scenario) buildEnv() {
 		files["g.env"] = n + "=globaldot.lit\n"
 	}
 	var t strings.Builder
-	t.WriteString("tasks:\n  target:\n")
+	t.WriteString("tasks:\n")
+	if e.hasVar(sCall) {
+		t.WriteString("  caller:\n    cmds:\n      - task: target\n        vars:\n          " + n + ": 'callvars.lit'\n")
+	}
+	t.WriteString("  target:\n")
 	if e.Dot1 || e.Dot2 {
 		// absolute paths: the working directory of an included task is not the root directory
 		t.WriteString("    dotenv: ['{{.ROOT_DIR}}/t1.env', '{{.ROOT_DIR}}/t2.env']\n")
@@ -147,6 +198,9 @@ func (sc *scenario) buildEnv() {
 	}
 	// a dynamic variable whose command reads the same environment variable
 	t.WriteString("    vars:\n      SEEN_BY_SH:\n        sh: " + yq(`printf '%s' "${`+n+`-unset}"`) + "\n")
+	if e.hasVar(sTask) {
+		t.WriteString("      " + n + ": 'taskvars.lit'\n")
+	}
 	// ${N-unset}: an empty value is a value
 	t.WriteString("    cmds:\n      - " + yq(`printf '%s\n' "E|${`+n+`-unset}|"`) + "\n")
 	t.WriteString("      - " + yq(`printf '%s\n' 'S|{{.SEEN_BY_SH}}|'`) + "\n")
@@ -163,7 +217,15 @@ func (sc *scenario) buildEnv() {
 	}
 	files["Taskfile.yml"] = root
 	sc.files = files
-	sc.args = []string{"-s", posTaskPrefix[sc.Pos] + "target"}
+	sc.args = []string{"-s"}
+	if e.hasVar(sCLI) {
+		sc.args = append(sc.args, n+"=cli.lit")
+	}
+	if e.hasVar(sCall) {
+		sc.args = append(sc.args, posTaskPrefix[sc.Pos]+"caller")
+	} else {
+		sc.args = append(sc.args, posTaskPrefix[sc.Pos]+"target")
+	}
 	switch e.Proc {
 	case 1:
 		sc.env = append(sc.env, n+"=procenv.lit")
